@@ -13,7 +13,7 @@ Rec == ndJsonDeserialize(IOEnv.TRACE)
 VARIABLES l, rr, org, bad
 vars == <<l, rr, org, bad>>
 
-MaxBad == 400
+MaxBad == 3000
 
 Init == l = 1 /\ rr = InitRegs /\ org = InitOrg /\ bad = {}
 
